@@ -286,9 +286,114 @@ def run_c17(tier):
     return 0
 
 
+def run_c14(tier):
+    """C14: (1) alias-freedom of everything handed out at once (table rows, address checks on the code);
+    (2) programs enumerated by Borrow.tla vs rustc; (3) schedules of workers on disjoint views."""
+    import progs
+    t0 = time.time()
+    q = tier == "quick"
+    th, built = vlib.build_harness_async("dev")
+    # (2) programs and thread capabilities
+    r_b, ps, thr = progs.enumerate_programs(4 if q else 5, 3)
+    verdicts = progs.judge(ps, thr)
+    foreign_codes = [v for v in verdicts if v["foreign_codes"]]
+    if foreign_codes:
+        raise ToolError(f"generated program does not type-check (renderer out of date?): {foreign_codes[0]['codes']}\n{foreign_codes[0]['src']}")
+    bad = [v for v in verdicts if v["accepted"] and (("prog" in v["row"] and not v["row"]["aliasfree"]) or
+                                                      ("sound" in v["row"] and not v["row"]["sound"]))]
+    quad = {}
+    for v in verdicts:
+        row = v["row"]
+        key = ("program:" + ("accepted" if v["accepted"] else "rejected") + "/" + ("alias-free" if row["aliasfree"] else "aliasing")) \
+            if "prog" in row else ("thread:" + ("accepted" if v["accepted"] else "rejected") + "/" + ("sound" if row["sound"] else "unsound"))
+        quad[key] = quad.get(key, 0) + 1
+    model_vs_rustc = sum(1 for v in verdicts if "prog" in v["row"] and v["accepted"] != v["row"]["typed"])
+    # (3) schedules: all interleavings in the model ...
+    regs = ['<<<<"a","b">>, <<"c","d","e">>>>', '<<<<"a">>, <<"b","c">>, <<"d","e">>>>'] if q else \
+           ['<<<<"a","b","c">>, <<"d","e","f">>>>', '<<<<"a","b">>, <<"c","d">>, <<"e","f">>>>', '<<<<"a">>, <<"b">>, <<"c">>, <<"d">>>>']
+    sched_mc = []
+    for i, rg in enumerate(regs):
+        r = vlib.tlc_run(f"c14_sched{i}", "Sched", dict(Regions=rg), inv=["InvFinal", "InvIsolated"], workers=4, timeout=600,
+                         init="InitS", nxt="NextS", env_extra={"TRACE": "/dev/null"})
+        if not r["ok"]:
+            raise ToolError(f"Sched.tla fails: {r.get('error')}")
+        sched_mc.append(r)
+    th.join()
+    if "err" in built:
+        raise built["err"]
+    binpath = built["bin"]
+    # ... and logs of real threads validated against the same step relation
+    sched_tr = []
+    for i, t in enumerate(["u32", "Ipv6Net"] if q else ["u8", "u32", "u64", "u128", "Ipv4Net", "Ipv6Net", "Ipv4Inet"]):
+        sched_tr.append(vlib.sched_check(binpath, t, vlib.seed() * 100 + i, 30 if q else 200))
+    # (1) alias table rows
+    jobs = [TableJob("c14_alias", ["Insert", "Remove", "RemoveKeepTree", "Alias"], ["Alias"], targets=targets(QUICK_TYPES if q else ALL_TYPES)),
+            TableJob("c14_alias3", ["Insert", "Remove", "Alias"], ["Alias"], keylen=3, maxcount=4 if q else 5,
+                     targets=targets(["u32"] if q else QUICK_TYPES))]
+    tlc_results = [j.run_tlc() for j in jobs]
+    reports = []
+    with cf.ThreadPoolExecutor(max_workers=8) as ex:
+        futs = [ex.submit(vlib.replay_rows, binpath, r["rows_file"], t, c, x) for j, r in zip(jobs, tlc_results) for (t, c, x) in j.targets]
+        reports = [f.result() for f in futs]
+    for r in tlc_results:
+        try:
+            os.remove(r["rows_file"])
+        except OSError:
+            pass
+    viol = 0
+    for v in bad[:6]:
+        viol += 1
+        path = vlib.write_replay("C14", dict(property="C14", engine="program", source=v["src"], model=v["row"],
+                                             note="rustc accepts this program although the model says it aliases / the transfer is unsound"))
+        print(f"VIOLATION property=C14 replay={path}")
+        print("  " + v["src"].replace("\n", "\n  "))
+    for st in sched_tr:
+        if not st["accepted"]:
+            viol += 1
+            path = vlib.write_replay("C14", dict(property="C14", engine="sched", ptype=st["ptype"], rejected_line=st.get("rejected_line"),
+                                                 note="log of real threads on disjoint views is not explainable by Sched.tla"))
+            print(f"VIOLATION property=C14 replay={path}")
+    mine = []
+    for rep in reports:
+        for mm in rep["mismatches"]:
+            mine.append(dict(mm, ptype=rep["ptype"], coll=rep["coll"], ctx=rep["ctx"]))
+    seen = set()
+    for mm in mine:
+        key = (mm["kind"], mm["e"].get("a"), mm["e"].get("how"))
+        if key in seen or mm["e"].get("a") not in ("Alias",) and mm["kind"] != "pan":
+            continue
+        seen.add(key)
+        viol += 1
+        path = vlib.write_replay("C14", dict(property="C14", engine="table", ptype=mm["ptype"], coll=mm["coll"], ctx=mm["ctx"], kind=mm["kind"],
+                                             steps=mm.get("h", []), event=mm["e"], expected=mm.get("expected"), observed=mm.get("got"), row=mm.get("row")))
+        print(f"VIOLATION property=C14 replay={path}")
+    executed = sum(r.get("executed", 0) for r in reports)
+    cov = dict(states=sum(r.get("distinct", 0) for r in tlc_results) + r_b.get("distinct", 0) + sum(r.get("distinct", 0) for r in sched_mc),
+               transitions=sum(r.get("generated", 0) for r in tlc_results) + r_b.get("generated", 0) + sum(r.get("generated", 0) for r in sched_mc),
+               traces_validated_against_impl=executed + len(verdicts) + sum(s["lines_ok"] for s in sched_tr),
+               samples=[verdicts[len(verdicts) // 3]["src"], next((v["src"] for v in verdicts if not v["accepted"]), ""),
+                        sched_tr[0].get("sample")],
+               programs_enumerated=len(ps), thread_rows=len(thr), verdict_quadrants=quad,
+               programs_where_rustc_differs_from_the_models_borrow_judgement=model_vs_rustc,
+               alias_rows_executed=executed,
+               schedules_model=[dict(regions=rg, states=r.get("distinct"), transitions=r.get("generated")) for rg, r in zip(regs, sched_mc)],
+               schedules_real=[{k: s.get(k) for k in ("ptype", "runs", "threads", "lines", "lines_ok", "accepted")} for s in sched_tr],
+               exhaustive=True,
+               rule="every program of <= N statements over the API alphabet is compiled; VIOLATION iff rustc accepts a program the model judges aliasing / unsound")
+    vlib.write_evidence("C14", tier, "model_checking", cov, time.time() - t0, viol,
+                        ["rustc's verdict is the implementation under test for the compile-time part",
+                         "absence of undefined behaviour inside the unsafe blocks (Stacked/Tree Borrows) is not decided here (DESIGN.md section 9)"])
+    if viol:
+        return 1
+    print(f"OK property=C14 tier={tier} programs={len(ps)} thread_rows={len(thr)} alias_rows={executed} sched_lines={sum(s['lines_ok'] for s in sched_tr)} wall={time.time()-t0:.0f}s")
+    return 0
+
+
 def run_check(prop, tier):
     if prop == "C17":
         return run_c17(tier)
+    if prop == "C14":
+        return run_c14(tier)
     t0 = time.time()
     jobs = plan(prop, tier)
     th, built = vlib.build_harness_async("dev")
